@@ -43,7 +43,9 @@ def _check_filter_components(prop, op, value):
     return True
 
 
-_TIMESTAMP_LOOK = re.compile(r"\d{4}-\d\d-\d\dT\d\d:\d\d:\d\d(\.\d+)?Z\Z")
+_TIMESTAMP_LOOK = re.compile(
+    r"\d{4}-\d\d-\d\dT\d\d:\d\d:\d\d(\.\d+)?Z\Z", re.ASCII,
+)
 
 
 def _timestamp_or_none(text):
